@@ -9,7 +9,7 @@
 
 Exit codes of `check`: 0 property held; 1 + `VIOLATION property=.. replay=..`; 2 machinery broken.
 """
-import fcntl, glob, hashlib, json, os, re, shutil, subprocess, sys, time
+import signal, fcntl, glob, hashlib, json, os, re, shutil, subprocess, sys, time
 
 VERIF = os.path.dirname(os.path.dirname(os.path.abspath(__file__)))
 REPO = os.environ.get('VERIF_REPO', '/repo')
@@ -24,15 +24,23 @@ def log(*a):
 
 
 def run(cmd, cwd=None, timeout=None, env=None, capture=True):
-    """returns (rc, output); rc 124 on timeout"""
+    """returns (rc, output); rc 124 on timeout (the whole process group is killed, so that no compiler is left running)"""
+    p = subprocess.Popen(cmd, cwd=cwd, env=env or ENV, shell=isinstance(cmd, str), start_new_session=True,
+                         stdout=subprocess.PIPE if capture else None, stderr=subprocess.STDOUT if capture else None,
+                         text=True, errors='replace')
     try:
-        p = subprocess.run(cmd, cwd=cwd, env=env or ENV, timeout=timeout, shell=isinstance(cmd, str),
-                           stdout=subprocess.PIPE if capture else None, stderr=subprocess.STDOUT if capture else None,
-                           text=True, errors='replace')
-        return p.returncode, p.stdout or ''
-    except subprocess.TimeoutExpired as e:
-        out = e.stdout if isinstance(e.stdout, str) else (e.stdout or b'').decode(errors='replace')
-        return 124, out
+        out, _ = p.communicate(timeout=timeout)
+        return p.returncode, out or ''
+    except subprocess.TimeoutExpired:
+        try:
+            os.killpg(p.pid, signal.SIGKILL)
+        except ProcessLookupError:
+            pass
+        try:
+            out, _ = p.communicate(timeout=30)
+        except Exception:
+            out = ''
+        return 124, out or ''
 
 
 def write_if_changed(path, text):
